@@ -9,6 +9,7 @@ import (
 	"fmt"
 	"os"
 	"path/filepath"
+	"runtime"
 	"strings"
 	"sync"
 	"testing"
@@ -87,6 +88,36 @@ func render(blocks []*cm.RootBlock, refs cm.ReferenceMap, c config) string {
 	var buf bytes.Buffer
 	r.Render(&buf, blocks)
 	return buf.String()
+}
+
+type failingWriter struct{}
+
+func (failingWriter) Write(p []byte) (int, error) { return 0, fmt.Errorf("writer failed") }
+
+type slowWriter struct{ buf bytes.Buffer }
+
+func (w *slowWriter) Write(p []byte) (int, error) {
+	runtime.Gosched()
+	n, err := w.buf.Write(p)
+	runtime.Gosched()
+	return n, err
+}
+
+// abortedWalks walks every root block a few times and stops each walk early: by
+// Post returning false at the k-th node, and by Pre pruning every other node.
+func abortedWalks(blocks []*cm.RootBlock, salt int) {
+	for bi, b := range blocks {
+		stopAt := 1 + (bi+salt)%7
+		n := 0
+		cm.Walk(b.AsNode(), &cm.WalkOptions{
+			Pre:  func(c *cm.Cursor) bool { return true },
+			Post: func(c *cm.Cursor) bool { n++; return n < stopAt },
+		})
+		m := 0
+		cm.Walk(b.AsNode(), &cm.WalkOptions{
+			Pre: func(c *cm.Cursor) bool { m++; return m%2 == 1 },
+		})
+	}
 }
 
 func walkSig(blocks []*cm.RootBlock) string {
@@ -282,6 +313,9 @@ func runBatch(inputs [][]byte, goroutines int) error {
 	format.Format(&fb, blocks0)
 	wantFormat := fb.String()
 	wantWalk := walkSig(blocks0)
+	// walks cut short before the concurrent phase (on the other tree): whatever
+	// an aborted walk leaves behind in the package must not reach later walks
+	abortedWalks(blocks0, 0)
 	blocks, refs := cm.Parse(doc)
 	wantDump := dumpAll(blocks, refs)
 	wantRefs := fmt.Sprintf("%#v", map[string]cm.LinkDefinition(refs))
@@ -303,11 +337,34 @@ func runBatch(inputs [][]byte, goroutines int) error {
 			<-start2
 			for k := 0; k < 3; k++ {
 				ci := (g*3 + k) % len(cfgs)
+				switch (g + k) % 5 {
+				case 3:
+					// a writer that fails: this call reports the error, the others
+					// that overlap with it are not disturbed
+					if err := shared[ci].Render(failingWriter{}, blocks); err == nil && len(wantRender[ci]) > 0 {
+						errs <- fmt.Errorf("Render to a failing writer returned nil")
+					}
+					continue
+				case 4:
+					// a writer that yields the processor inside Write, so that the
+					// call is still in progress while others start and finish
+					var sw slowWriter
+					shared[ci].Render(&sw, blocks)
+					if sw.buf.String() != wantRender[ci] {
+						errs <- fmt.Errorf("concurrent Render (slow writer) under configuration %+v differs from the sequential result", cfgs[ci])
+					}
+					continue
+				}
 				var buf bytes.Buffer
 				shared[ci].Render(&buf, blocks)
 				if buf.String() != wantRender[ci] {
 					errs <- fmt.Errorf("concurrent Render under configuration %+v differs from the sequential result", cfgs[ci])
 				}
+			}
+			if g%4 == 1 {
+				// walks that are cut short (Post or Pre returning false) while other
+				// goroutines walk, render and format the same tree
+				abortedWalks(blocks, g)
 			}
 			switch g % 3 {
 			case 0:
